@@ -150,7 +150,18 @@ func c20State(v *V3View, target string) (string, string) {
 			for p, want := range tx.Values {
 				got, ok := cfg.Applied.Values[p]
 				if !ok || !sameValue3(got, want) {
-					return "consistency/applied-values-differ-from-the-applied-revision", fmt.Sprintf("applied revision is %d, its value %s is stored as %v (present %v)", a, pv3Text(want), pv3Text(got), ok)
+					cl := "consistency/applied-values-differ-from-the-applied-revision"
+					// cause attribution: the stored value is that of a later change whose apply failed – left behind by
+					// the store's two-step write (values, then record) when the applying step died in between
+					for _, later := range v.Txs[target] {
+						if uint64(later.ID.Index) > a && phasesOf(later).ca == p3Failed {
+							if lv, has := later.Values[p]; has && ok && sameValue3(got, lv) {
+								cl += "/value-of-a-later-failed-apply-left-behind"
+								break
+							}
+						}
+					}
+					return cl, fmt.Sprintf("applied revision is %d, its value %s is stored as %v (present %v)", a, pv3Text(want), pv3Text(got), ok)
 				}
 			}
 		}
@@ -369,6 +380,7 @@ func c20Scenarios(thorough bool) []*Scenario {
 		scs = append(scs,
 			&Scenario{Name: "V6h one change, connection lost and re-established; one step split", Cfg: cfg, Init: connected, Requests: []SetReqOrCall{a1},
 				Faults: []FaultSpec{faultConnDown("T1"), faultConnUp("T1")}, FaultBudget: 2, HoldBudget: 1, HoldDepth: 4, MaxStates: 1500000},
+			&Scenario{Name: "V2x two changes of one path and the rollback of the second, connected; one crash", Cfg: cfg, Init: connected, Requests: []SetReqOrCall{a1, a2, rb(2)}, CrashBudget: 1},
 			&Scenario{Name: "V1 two changes of one path, connected; one crash", Cfg: cfg, Init: connected, Requests: []SetReqOrCall{a1, a2}, CrashBudget: 1},
 			&Scenario{Name: "V2 change and its rollback, connected; one crash", Cfg: cfg, Init: connected, Requests: []SetReqOrCall{a1, rb(1)}, CrashBudget: 1},
 			&Scenario{Name: "V6r two changes, device restart", Cfg: cfg, Init: connected, Requests: []SetReqOrCall{a1, a2o},
